@@ -79,6 +79,9 @@ def correspond(ctx):
     c['violations'] = _violations(st, 'monitor during correspondence')
     if isinstance(st, dict):
         st.pop('violations', None)
+        if c.get('bad_op'):
+            c['ok'] = False
+            c['errors'].append('%d op lines were rejected by the model driver (bad-op): generator/driver mismatch' % c['bad_op'])
         if st.get('child_failures'):
             c['ok'] = False
             c['errors'].append('%d scenario processes died' % st['child_failures'])
